@@ -397,6 +397,14 @@ def judge_basic_container(sh, rng):
         t = Tok()
         t.feed(ex.body.decode('utf8'))
         text = ''.join(t.text)
+        raw = ex.body.decode('utf8').lower()
+        if t.tags.count('html') != 1 or raw.count('</html>') != 1 or t.tags.count('body') > 1 or raw.rstrip().rfind('</html>') != len(raw.rstrip()) - 7:
+            # one result, one document: a page that carries a second document (or anything after its end) shows something
+            # that is not the table of this result
+            sh.violation('C17/html-not-one-document', 'render_basic(%s) as HTML: %d <html> / %d </html> / %d <body> elements, ends %r'
+                         % (short(v), t.tags.count('html'), raw.count('</html>'), t.tags.count('body'), raw.rstrip()[-30:]), case)
+            return
+        sh.hit('basic:table-is-one-document')
         if 'table' not in t.tags:
             sh.violation('C17/html-without-table', 'render_basic(%s) as HTML has no table element (tags %r)' % (short(v), t.tags[:12]), case)
             return
